@@ -1121,6 +1121,12 @@ class _MissingImportFinder:
         if symbol_needs_import(fullname, self.scopestack):
             data = (fullname, self.scopestack, self._lineno)
             self._deferred_load_checks.append(data)
+        elif self.unused_imports is not None:
+            # The name is bound now (and that binding has been marked as
+            # used), but it is looked up when the module is complete, and may
+            # have been rebound by then, e.g. by an import further down.
+            # Mark what it resolves to at the end as used, too.
+            self._deferred_use_marks.append((fullname, self.scopestack))
 
 
     def _visit_Load_defered(self, fullname):
